@@ -1,4 +1,5 @@
-"""Transport.tla: the message transports (aiohttp client / server side, quart, websockets, asyncwebsockets, Django channels) as a function
+"""Transport.tla: the message transports (aiohttp client / server side, quart, websockets, asyncwebsockets, Django channels, websocket over
+HTTP/3 - server side over a starlette WebSocket, client side over ClientWebSocket fed HTTP/3 DATA events encoded by wsproto) as a function
 of the sequence of websocket messages the peer sends (a valid frame, an undecodable one, an empty one, a message that is not BINARY) and
 of how the websocket ends (stays open, iterator ends, iterator raises).
 
@@ -14,8 +15,8 @@ import json
 
 from .. import common, tlc
 
-KINDS = ['aiohttp_client', 'aiohttp_server', 'quart', 'websockets', 'asyncwebsockets', 'channels']
-SURFACES = {'aiohttp_client', 'asyncwebsockets'}       # hand the endpoint a transport error when the websocket fails
+KINDS = ['aiohttp_client', 'aiohttp_server', 'quart', 'websockets', 'asyncwebsockets', 'channels', 'http3_server', 'http3_client']
+SURFACES = {'aiohttp_client', 'asyncwebsockets', 'http3_server'}       # hand the endpoint a transport error when the websocket fails
 
 
 class _End(Exception):
@@ -152,6 +153,77 @@ def _make(kind, loop):
                 else:
                     await c.receive(bytes_data=v)
         return t, s, pump(), (lambda k, b: ('m', 'hello' if k == 'text' else b))
+    if kind == 'http3_server':
+        # the server side of websocket-over-HTTP/3 (and the FastAPI example): a starlette WebSocket over a scripted ASGI receive / send pair
+        from starlette.websockets import WebSocket
+        from rsocket.transports.http3_transport import Http3TransportWebsocket
+        first = [True]
+
+        async def receive():
+            if first[0]:
+                first[0] = False
+                return {'type': 'websocket.connect'}
+            k, v = await s.q.get()
+            if k == 'close':
+                return {'type': 'websocket.disconnect', 'code': 1000}
+            if k == 'error':
+                raise ConnectionResetError('websocket failed')
+            return v
+
+        async def send(message):
+            if message['type'] == 'websocket.send':
+                s.sent.append(bytes(message.get('bytes') or b''))
+        ws = WebSocket({'type': 'websocket', 'path': '/', 'headers': [], 'query_string': b''}, receive, send)
+        box = {}
+
+        async def start():
+            await ws.accept()
+            box['t'] = Http3TransportWebsocket(ws)
+        loop.create_task(start())
+        loop.run_ready()
+        nth = [0]
+
+        def wrap3(k, b):
+            if k != 'text':
+                return ('m', {'type': 'websocket.receive', 'bytes': b})
+            nth[0] += 1
+            # the two shapes ASGI servers give a TEXT message: no 'bytes' key at all (aioquic's demo server, uvicorn), or bytes = None
+            return ('m', {'type': 'websocket.receive', 'text': 'hello'} if nth[0] % 2 else {'type': 'websocket.receive', 'bytes': None, 'text': 'hello'})
+        return box['t'], s, None, wrap3
+    if kind == 'http3_client':
+        # the client side: ClientWebSocket decodes the websocket protocol (wsproto) from HTTP/3 DATA events; the peer's messages are
+        # encoded by a wsproto SERVER connection, so TEXT and BINARY messages are what a real server would put on the stream
+        import wsproto
+        import wsproto.events as wev
+        from aioquic.h3.events import DataReceived
+        from rsocket.transports.http3_transport import ClientWebSocket, Http3TransportWebsocket
+
+        class Http:
+            def send_data(self, stream_id, data, end_stream):
+                # what the client wrote: decoded by the peer's wsproto connection
+                peer.receive_data(data)
+                for ev in peer.events():
+                    if isinstance(ev, wev.BytesMessage):
+                        s.sent.append(bytes(ev.data))
+        peer = wsproto.Connection(wsproto.ConnectionType.SERVER)
+        cws = ClientWebSocket(Http(), 0, lambda: None)
+        # the opening handshake is done by HTTP/3 headers, not by wsproto: both connections start in the OPEN state
+        from wsproto.connection import ConnectionState
+        for conn in (peer, cws.websocket):
+            conn._state = ConnectionState.OPEN
+        box = {'t': Http3TransportWebsocket(cws)}
+
+        async def pump():
+            while True:
+                k, v = await s.q.get()
+                if k == 'close':
+                    data = peer.send(wev.CloseConnection(code=1000))
+                    cws.http_event_received(DataReceived(data=data, stream_id=0, stream_ended=True))
+                    return
+                if k == 'error':
+                    return                      # (a QUIC connection that fails produces no websocket event at all)
+                cws.http_event_received(DataReceived(data=peer.send(v), stream_id=0, stream_ended=False))
+        return box['t'], s, pump(), (lambda k, b: ('m', wev.TextMessage(data='hello') if k == 'text' else wev.BytesMessage(data=b)))
     raise common.Machinery('unknown transport kind %r' % kind)
 
 
@@ -258,8 +330,8 @@ def check(v, prop):
         case, exp = row['c'], row['e']
         want = [x for x in exp['delivered'] if x > 0]
         for kind in KINDS:
-            if kind == 'channels' and case['ending'] == 'error':
-                continue
+            if kind in ('channels', 'http3_client') and case['ending'] == 'error':
+                continue            # (no such event: a consumer is only ever disconnected; a failing QUIC connection produces no websocket event)
             obs = run_row(kind, case)
             n += 1
             where = '%s transport, messages %s, websocket %s' % (kind, case['msgs'], case['ending'])
